@@ -281,9 +281,11 @@ def run(chk: core.Check):
     chk.add_tlc("control helper picks the first checkpoint found", r3, expect_violation="HelperLaw")
     cases = tlc.dedupe(res.emits, lambda e: [e["flow"], e["rod"], e["forcing"], e["body_time"]])
     stride = 6 if quick else 1
+    verdicts = set()
     for i, e in enumerate(cases):
         if i % stride != chk.seed % stride and e["result"]["kind"] != "ok":
             continue
+        verdicts.add(e["result"]["kind"])
         try:
             err = helper_case(chk, e)
         except Exception as ex:
@@ -295,6 +297,8 @@ def run(chk: core.Check):
                           f"forcing files {e['forcing']}, body time {e['body_time']}: {err}", {"case": e})
         if len(chk.samples) < 3 and e["result"]["kind"] == "ok" and len(e["flow"]) > 1:
             chk.sample(e)
+    if verdicts != {"ok", "FileNotFoundError", "ValueError", "missing_companion"}:
+        raise core.MachineryError(f"helper verdicts replayed: {sorted(verdicts)} (every verdict must be exercised)")
     K = 3 if quick else 4
     for kind in ("2d", "3d"):
         for s in range(1 if quick else 3):
